@@ -300,3 +300,42 @@ Proof.
   rewrite forallb_forall in H. specialize (H s Hs). rewrite forallb_forall in H.
   apply Forall_forall. intros b Hb. apply N.ltb_lt. exact (H b Hb).
 Qed.
+
+(** ---- FramebufferInfo.RGBColorInfo: nil unless the framebuffer is RGB, else the address of the colour block ---- *)
+Lemma rgbColorInfo_is_translation (w : world) (p : N) :
+  mem_bytes (f_world_mem w) ->
+  go_multiboot_FramebufferInfo_RGBColorInfo mld w p =
+    match rd (f_world_mem w) (padd p mb_off_FramebufferInfo_Type) 1 with
+    | Ok t => GOk (w, if t =? mb_FramebufferTypeRGB then padd p mb_off_FramebufferInfo_colorInfo else 0)
+    | _ => GPanic
+    end.
+Proof.
+  intros Hm. unfold go_multiboot_FramebufferInfo_RGBColorInfo. rewrite gload_rd by exact Hm. rewrite gw64_padd.
+  change mb_off_FramebufferInfo_Type with 21. change mb_off_FramebufferInfo_colorInfo with 24.
+  destruct (rd_cases (f_world_mem w) (padd p 21) 1) as [[t Et]|Et]; rewrite Et; [|reflexivity].
+  destruct (t =? mb_FramebufferTypeRGB); reflexivity.
+Qed.
+
+(** the model's [read_fb] (what a caller of GetFramebufferInfo reads) looks for the colour layout exactly where the
+    regenerated RGBColorInfo points, and reports none exactly when it returns nil *)
+Lemma read_fb_rgb_at (t0 : list gcall) (m : mem) (p : N) (f : fbinfo) :
+  mem_bytes m -> read_fb m p = Ok f ->
+  match fb_rgb f with
+  | Some c => go_multiboot_FramebufferInfo_RGBColorInfo mld (mkw t0 m) p = GOk (mkw t0 m, padd p mb_off_FramebufferInfo_colorInfo) /\
+              rd_each m (padd p mb_off_FramebufferInfo_colorInfo) rgb_offsets = Ok c
+  | None => go_multiboot_FramebufferInfo_RGBColorInfo mld (mkw t0 m) p = GOk (mkw t0 m, 0)
+  end.
+Proof.
+  intros Hm H. rewrite rgbColorInfo_is_translation by exact Hm. cbn [mkw f_world_mem].
+  unfold read_fb, bind in H.
+  destruct (rd m (padd p mb_off_FramebufferInfo_PhysAddr) 8); try discriminate.
+  destruct (rd m (padd p mb_off_FramebufferInfo_Pitch) 4); try discriminate.
+  destruct (rd m (padd p mb_off_FramebufferInfo_Width) 4); try discriminate.
+  destruct (rd m (padd p mb_off_FramebufferInfo_Height) 4); try discriminate.
+  destruct (rd m (padd p mb_off_FramebufferInfo_Bpp) 1); try discriminate.
+  destruct (rd m (padd p mb_off_FramebufferInfo_Type) 1) as [t| | |]; try discriminate.
+  destruct (t =? mb_FramebufferTypeRGB).
+  - destruct (rd_each m (padd p mb_off_FramebufferInfo_colorInfo) rgb_offsets) as [c| | |]; try discriminate.
+    injection H as <-. cbn [fb_rgb]. split; reflexivity.
+  - injection H as <-. reflexivity.
+Qed.
